@@ -9,5 +9,6 @@ CONSTANTS
   Dev_NdKeyStr = TRUE
   Dev_NdValIndex = TRUE
   Dev_CsIndex = TRUE
+  Dev_SizeHint = TRUE
 POSTCONDITION Consumed
 CHECK_DEADLOCK FALSE
